@@ -9,6 +9,8 @@ type, or the typed structure) gives exactly the reference's value and the positi
 object is the canonical encoding (`codec spec`, Lean `Spec.E5.encode`).
 Also: two or three messages of the same stream/function decoded through ONE `StreamsFunctions` container (a full body, then a legal
 shorter / empty list, and the reverse) — each result equals a fresh container's, earlier results stay as they were.
+Also: a Dynamic that already holds a caller-supplied typed variable (own count limit, typed Array) or was set from another Dynamic
+decodes like a fresh one and leaves the other Dynamic alone.
 Correspondence (C): `decode` of the same bytes, and of invalid / out-of-quantifier ones (NaN, infinity, JIS-8 under a Dynamic,
 zero length bytes, truncation), against `Model.Var.decodeAs`.
 """
@@ -20,7 +22,7 @@ import sys
 
 sys.path.insert(0, os.path.dirname(os.path.abspath(__file__)))
 import codeclib as K  # noqa: E402
-from codeclib import hlib  # noqa: E402
+from codeclib import hlib, V  # noqa: E402
 from c01 import js, unjs, refill_for  # noqa: E402
 
 PROP = "C02"
@@ -142,6 +144,53 @@ def oracle_short_list(res, s, w, label=None, decode=None):
             return
 
 
+def oracle_dyn_prefilled(res, tags, v, held_t, held_elems, held_count, member=None):
+    """a Dynamic that already holds a CALLER-SUPPLIED typed variable (with its own count limit / member type) decodes a valid item exactly
+    as a fresh Dynamic of the same configuration does; and two Dynamics coupled by `b.set(a)` do not change together on decode"""
+    case = {"kind": "dynprefilled", "types": list(tags), "val": js(v), "held": [held_t, list(held_elems), held_count], "member": member}
+    classes = [V.Array if g == "ARR" else K.VARCLS[g] for g in tags]
+    data = K.own_encode(v)
+
+    def outcome(d):
+        try:
+            pos = d.decode(data, 0)
+            return f"ok {K.show_obj(d)} pos={pos}"
+        except Exception as exc:  # noqa: BLE001
+            return "err " + hlib.errkind(exc)
+    want = outcome(V.Dynamic(list(classes)))
+    if not want.startswith("ok"):
+        return
+    try:
+        if member is not None:
+            inner = V.Array(K.VARCLS[member], [K.leaf_payload(member, [e]) if member in ("A", "J") else [e] for e in held_elems])
+        else:
+            inner = K.VARCLS[held_t](K.leaf_payload(held_t, held_elems) if held_t != "B" else bytes(held_elems), count=held_count)
+        d = V.Dynamic(list(classes))
+        d.set(inner)
+        a = V.Dynamic(list(classes))
+        a.set(inner if member is not None else K.VARCLS[held_t](K.leaf_payload(held_t, held_elems) if held_t != "B" else bytes(held_elems)))
+        b = V.Dynamic(list(classes))
+        b.set(a)
+        a_before = K.show_obj(a)
+    except Exception:  # noqa: BLE001
+        return
+    got = outcome(d)
+    if got != want:
+        res.violate("decode-into-held-object", "a Dynamic holding a caller-supplied typed variable decodes a valid item differently from a fresh Dynamic",
+                    case, want[:200], got[:200])
+        return
+    gb = outcome(b)
+    if gb != want:
+        res.violate("decode-into-held-object", "a Dynamic set from another Dynamic decodes a valid item differently from a fresh Dynamic", case, want[:200], gb[:200])
+        return
+    try:
+        a_after = K.show_obj(a)
+    except Exception as exc:  # noqa: BLE001
+        a_after = type(exc).__name__
+    if a_after != a_before:
+        res.violate("decode-into-held-object", "decoding into a Dynamic changed another Dynamic it had been set from", case, a_before[:200], a_after[:200])
+
+
 def oracle_decode_sequence(res, cls_name, bodies):
     """several messages of ONE stream/function decoded through ONE StreamsFunctions container: every result equals what a fresh
     container gives for that body, earlier results are not changed by later decodes, and results are distinct objects"""
@@ -193,6 +242,9 @@ def replay_case(res, case):
             oracle_short_list(res, unjs(case["struct"]), unjs(case["val"]), case["fn"], dec)
         else:
             oracle_short_list(res, unjs(case["struct"]), unjs(case["val"]))
+    if case.get("kind") == "dynprefilled":
+        h = case["held"]
+        oracle_dyn_prefilled(res, case["types"], unjs(case["val"]), h[0], h[1], h[2], case.get("member"))
     if case.get("kind") == "sequence":
         oracle_decode_sequence(res, case["fn"], [bytes.fromhex(b) for b in case["bodies"]])
     if case.get("kind") == "decode":
@@ -405,6 +457,23 @@ def main():
             if not ok:
                 res.violate("decode-wrong-value", f"{t} with 16777215 bytes does not decode / re-encode", {"kind": "big", "type": t, "n": n})
             res.count(("big", t, n), sample={"op": "decode long", "type": t, "bytes": n})
+
+    # ------------------------------------------------------------------ Dynamics pre-filled with caller-supplied typed variables
+    all_tags = ["ARR"] + [g for g in K.LEAVES if g != "J"]
+    n_pre = 0
+    for t in [g for g in K.LEAVES if g != "J"]:
+        for n in (1, 2, 5):
+            v = K.norm_val((t, K.gen_elems(rng, t, n, "finite")))
+            for held_n in sorted({0, 1, max(n - 1, 0)}):
+                held = K.norm_val((t, K.gen_elems(rng, t, held_n, "finite")))[1]
+                for held_count in sorted({-1, held_n, max(held_n, 1)}):
+                    oracle_dyn_prefilled(res, all_tags if rng.chance(1, 2) else [t, "ARR"], v, t, held, held_count)
+                    n_pre += 1
+    for member, v in (("U1", ("L", [("A", [97]), ("A", [98, 99])])), ("A", ("L", [("U2", [1, 2])])), ("U1", ("L", [("U1", [7]), ("L", [])])), ("BOOLEAN", ("L", []))):
+        oracle_dyn_prefilled(res, all_tags, v, "U1", [1, 2], -1, member=member)
+        n_pre += 1
+    res.bump("dynamic_prefilled", "decodes", n_pre)
+    res.evaluations += n_pre
 
     # ------------------------------------------------------------------ two messages of one function through one container
     import c03_fn
